@@ -266,12 +266,13 @@ LAYERS = [
     Layer("ip-dfs", run_ip_case, enumerate=enum_ip, exhaustive=True, space="all event sequences over 13 events to depth 4 (quick) / 5 (thorough) that start with a request, event, replay or reconnect", min_nontrivial=100),
     Layer("ip-generated", run_ip_case, strategy=ip_histories, n={"quick": 1500, "thorough": 40000}),
 ]
-for modname in ("c06_ble", "c06_coap"):
-    try:
-        mod = __import__("props." + modname, fromlist=["LAYERS"])
-        LAYERS += mod.LAYERS
-    except ImportError:
-        pass
+from props.ble_layers import C06_LAYERS as _BLE  # noqa: E402
+LAYERS += _BLE
+try:
+    from props.coap_layers import C06_LAYERS as _COAP
+    LAYERS += _COAP
+except ImportError:
+    pass
 
 SPEC = Property(
     P, "fault_enumeration",
